@@ -25,6 +25,15 @@ pub struct History {
 pub fn gen_history(ctx: &Ctx, max_updates: usize, objstm_bias: bool, allow_junk: bool, allow_raw_cr: bool) -> History {
     let mut cfg = gen::draw_cfg(ctx);
     cfg.n_objects = cfg.n_objects.min(if objstm_bias { 30 } else { 60 });
+    // rare class: one huge object stream (work splitting by pool size only shows on large index blocks)
+    let big = objstm_bias && ctx.chance(W, 1, 16, "big-objstm");
+    if big {
+        cfg.n_objects = 420 + ctx.draw(W, 300, "big-n") as usize;
+        cfg.max_depth = 1;
+        cfg.max_len = 4;
+        cfg.id_layout = 0;
+        ctx.count("big-object-stream-docs");
+    }
     cfg.id_layout = cfg.id_layout.min(1) + if ctx.chance(W, 1, 6, "large-ids") { 1 } else { 0 }; // mostly dense/gapped
     if objstm_bias {
         // object streams hold non-stream, generation-0 objects
@@ -63,6 +72,9 @@ pub fn gen_history(ctx: &Ctx, max_updates: usize, objstm_bias: bool, allow_junk:
     }
     if !allow_junk {
         opts.leading_junk = false;
+    }
+    if big {
+        opts.freedom = 2;
     }
     // raw CR / CRLF inside literal strings: only C02 is about string syntax, and there the
     // construct is carved out while the finding is listed as open
